@@ -329,7 +329,7 @@ def run_hy(text, script, fault, supp, cmbase, nv=4, mode="eval", keep=None):
     G = mod.__dict__
     try:
         forms = hy.models.Lazy(read_many(text, filename="<prog>", skip_shebang=False))
-        if mode == "eval":
+        if mode in ("eval", "hyeval"):
             tree, expr = hy_compile(forms, mod, get_expr=True, filename="<prog>", source=text)
             c1 = compile(tree, "<prog>", "exec")
             c2 = compile(expr, "<prog>", "eval")
@@ -353,6 +353,8 @@ def run_hy(text, script, fault, supp, cmbase, nv=4, mode="eval", keep=None):
                 "is_syntax_error": isinstance(x, SyntaxError)}
 
     def go(G):
+        if mode == "hyeval":
+            return hy.eval(hy.read_many(text, filename="<prog>"), G)
         exec(c1, G)
         return eval(c2, G) if mode == "eval" else None
     return _execute(go, G, log, nv)
